@@ -559,6 +559,73 @@ theorem planText_structural (text : List Char) (structural : Option Plan)
   rw [if_neg (by omega)]
   simp
 
+/-! ### fuel independence, index bounds -/
+
+/-- more fuel never changes an answer: the value computed with sufficient fuel is THE value -/
+theorem loop_fuel_mono (text : List Char) (cc total slack : Nat) :
+    ∀ (fuel start : Nat) (rs : List Range), loop text cc total slack fuel start = some rs →
+      ∀ k, loop text cc total slack (fuel + k) start = some rs := by
+  intro fuel
+  induction fuel with
+  | zero =>
+    intro start rs h k
+    unfold loop at h
+    split at h
+    · cases h
+    · rename_i hge
+      cases h
+      cases k with
+      | zero => simp [loop, hge]
+      | succ k => simp [loop, hge]
+  | succ fuel ih =>
+    intro start rs h k
+    have : fuel + 1 + k = (fuel + k) + 1 := by omega
+    rw [this]
+    unfold loop at h ⊢
+    split
+    · rename_i hlt
+      rw [if_pos hlt] at h
+      simp only [] at h ⊢
+      split
+      · rename_i hle
+        rw [if_pos hle] at h
+        obtain ⟨rs', hrs', rfl⟩ := Option.map_eq_some_iff.mp h
+        rw [ih _ rs' hrs' k]; rfl
+      · rename_i hle
+        rw [if_neg hle] at h
+        obtain ⟨rs', hrs', rfl⟩ := Option.map_eq_some_iff.mp h
+        rw [ih _ rs' hrs' k]; rfl
+    · rename_i hlt
+      rw [if_neg hlt] at h
+      exact h
+
+theorem window_length (text : List Char) (lo hi : Nat) (h : hi ≤ text.length) :
+    (window text lo hi).length = hi - lo := by
+  simp only [window, List.length_take, List.length_drop]
+  omega
+
+theorem window_getElem? (text : List Char) (lo hi j : Nat) (hj : lo + j < hi) :
+    (window text lo hi)[j]? = text[lo + j]? := by
+  simp only [window, List.getElem?_take, List.getElem?_drop]
+  rw [if_pos (by omega)]
+
+/-- **No out-of-bounds index.**  In a call made by `build_chunk_manifest` (`total` = number of
+    characters, `start < target ≤ total`) the two windows the four loops walk over,
+    `target..forward_limit` and `start..target`, lie inside the text: every `chars[idx]` the Rust
+    loops evaluate has `idx < total`, and the model's windows are exactly those characters. -/
+theorem C34_windows_in_bounds (text : List Char) (start target slack : Nat)
+    (_h1 : start < target) (h2 : target ≤ text.length) :
+    let fl := min (target + slack) text.length
+    fl ≤ text.length ∧
+    (window text target fl).length = fl - target ∧
+    (window text start target).length = target - start ∧
+    (∀ j, target + j < fl → (window text target fl)[j]? = text[target + j]?) ∧
+    (∀ j, start + j < target → (window text start target)[j]? = text[start + j]?) := by
+  intro fl
+  refine ⟨by omega, window_length _ _ _ (by omega), window_length _ _ _ h2, ?_, ?_⟩
+  · intro j hj; exact window_getElem? _ _ _ _ hj
+  · intro j hj; exact window_getElem? _ _ _ _ hj
+
 /-! ### non-vacuity -/
 
 /-- a small manifest (chunk size 4, slack 32): newline, forward sentence candidate, hard cuts at
@@ -577,5 +644,10 @@ example : (planNaive (List.replicate 2400 'a')).isSome = true :=
 
 example : planText (List.replicate 2399 'a') false none = none :=
   C34_threshold _ _ _ (by rw [List.length_replicate, CHUNK_MIN_CHARS_eq]; omega)
+
+-- the concrete plan of a 2400-character word: two hard cuts
+set_option maxRecDepth 100000 in
+example : (planNaive (List.replicate 2400 'a')).map (·.ranges) = some [⟨0, 1200⟩, ⟨1200, 2400⟩] := by
+  decide +kernel
 
 end Mv.Chunk
